@@ -302,6 +302,32 @@ func extraScenarios() []knownScenario {
 		{Name: "return-value-computed-before-finally", Sig: "exc:finally:return-value",
 			Script: cls + "function rv() { $x = 1; try { return $x; } finally { $x = 2; echo \"F;\"; } }\necho rv(), \";\";\n",
 			Good: "F;1;", What: "the returned value is computed before the finally block runs"},
+		// re-entrancy through constructs the small language does not have: what an activation has pending while its
+		// finally block / catch body / loop body runs belongs to that activation, also when the callee is the same code
+		{Name: "reentry-method", Sig: "exc:reentry:method",
+			Script: "<?php\nclass W {\n  function walk($n) { try { return \"w$n\"; } finally { echo \"F$n;\"; if ($n > 0) { echo $this->walk($n - 1), \";\"; } } }\n}\n$o = new W();\necho $o->walk(2), \";\";\n",
+			Good: "F2;F1;F0;w0;w1;w2;", What: "a method whose finally block calls the method again: every activation returns its own pending value"},
+		{Name: "reentry-static-method", Sig: "exc:reentry:static-method",
+			Script: "<?php\nclass W {\n  static function sw($n) { try { return \"s$n\"; } finally { if ($n > 0) { echo W::sw($n - 1), \";\"; } } }\n}\necho W::sw(2), \";\";\n",
+			Good: "s0;s1;s2;", What: "a static method whose finally block calls it again"},
+		{Name: "reentry-closure", Sig: "exc:reentry:closure",
+			Script: "<?php\n$f = function($n) use (&$f) { try { return \"c$n\"; } finally { if ($n > 0) { echo $f($n - 1), \";\"; } } };\necho $f(2), \";\";\n",
+			Good: "c0;c1;c2;", What: "a closure whose finally block calls the closure again"},
+		{Name: "reentry-catch-return", Sig: "exc:reentry:catch-return",
+			Script: "<?php\nclass K3 extends Exception {}\nfunction h($n) {\n  try { throw new K3(\"b$n\"); }\n  catch (K3 $e) { if ($n > 0) { echo h($n - 1), \";\"; } return \"h:\" . $e->getMessage(); }\n  finally { if ($n > 0) { echo h($n - 1), \";\"; } }\n}\necho h(1), \";\";\n",
+			Good: "h:b0;h:b0;h:b1;", What: "the catch variable and the value returned from a catch body survive re-entry from the catch body and from the finally block"},
+		{Name: "reentry-foreach-mutual", Sig: "exc:reentry:foreach-mutual",
+			Script: "<?php\nfunction p($n) {\n  foreach ([1, 2, 3] as $i) {\n    try { if ($i == 1) { continue; } if ($i == 2) { return \"p$n.$i\"; } }\n    finally { if ($n > 0) { echo q($n - 1), \";\"; } }\n  }\n  return \"end$n\";\n}\nfunction q($n) { return \"q<\" . p($n) . \">\"; }\necho p(1), \";\";\n",
+			Good: "q<p0.2>;q<p0.2>;p1.2;", What: "a pending continue and a pending return inside foreach survive mutual recursion from the finally block (the loop position too)"},
+		{Name: "reentry-while-break", Sig: "exc:reentry:while-break",
+			Script: "<?php\nfunction w($n) {\n  $i = 0;\n  while ($i < 3) {\n    $i++;\n    try { if ($i == 2) { break; } echo \"b$n.$i;\"; }\n    finally { if ($n > 0) { echo w($n - 1), \";\"; } }\n  }\n  return \"w$n.$i\";\n}\necho w(1), \";\";\n",
+			Good: "b1.1;b0.1;w0.2;b0.1;w0.2;w1.2;", What: "a pending break inside while survives re-entry from the finally block"},
+		{Name: "reentry-finally-override", Sig: "exc:reentry:finally-override",
+			Script: "<?php\nfunction o($n) { try { return \"t$n\"; } finally { if ($n > 0) { o($n - 1); } if ($n == 1) { return \"f$n\"; } } }\necho o(2), \";\", o(1), \";\", o(0), \";\";\n",
+			Good: "t2;f1;t0;", What: "only a return in the activation's own finally block overrides its pending return: the inner activation's override does not leak out"},
+		{Name: "reentry-pending-throw", Sig: "exc:reentry:pending-throw",
+			Script: "<?php\nclass K3 extends Exception {}\nfunction t($n) {\n  try { try { throw new K3(\"x$n\"); } finally { if ($n > 0) { try { t($n - 1); } catch (K3 $i) { echo \"in:\", $i->getMessage(), \";\"; } } } }\n  catch (K3 $e) { echo \"out:\", $e->getMessage(), \";\"; throw $e; }\n}\ntry { t(2); } catch (K3 $e) { echo \"top:\", $e->getMessage(), \";\"; }\n",
+			Good: "out:x0;in:x0;out:x1;in:x1;out:x2;top:x2;", What: "a pending exception survives a finally block in which deeper activations throw, catch and rethrow objects of the same class from the same statements"},
 	}
 }
 
